@@ -123,6 +123,8 @@ RUNTIME_FAULTS = [
     ("out-of-scope-name", "pz_q"),
     ("second-use-fails", "seen_q ( 1 )"),
     ("member-key-not-a-string", "<* a = 1 *> [ stdout ]"),
+    # deeper than the host stack (the harness runs with a limit of 5000)
+    ("too-deep", " + ".join(["1"] * 3500)),
     # errors raised by helpers that do not know where they were called
     ("comprehension-over-int", "[ x for x in v0 ]"),
     ("set-comprehension-over-int", "<< x for x in v0 >>"),
@@ -366,8 +368,25 @@ REQUIRE_STYLES = {
 }
 
 
+# where the require of a module with a syntax fault is written
+SYNTAX_REQUIRE_STYLES = {
+    "toplevel": "def k = 1;\nrequire {m}",
+    "function": "def ld() do 1; require {m} end;\nld()",
+    "list-loop": "for e in [1] do require {m} end",
+    "input-loop": "for ln in str_input('a') do 1; require {m} end",
+    "input-loop-function":
+        "def ld(i) do for ln in i do require {m} end end;\n"
+        "ld(str_input('a\nb'))",
+    "comprehension": "[do require {m}; 1 end for e in [1]]",
+    "process-lines": "process_lines(str_input('a'), fn(ln) do require {m} end)",
+    "catch": "do require {m} catch all 5 end",
+    "finally": "do require {m} finally 5 end",
+    "while": "while TRUE do require {m}; break end",
+}
+
+
 def module_prop(modtext, planted, fault_in_function, modname="zmodq",
-                style="plain"):
+                style="plain", syntax=False):
     """Module file with a planted runtime fault."""
     home = tempfile.mkdtemp(prefix="vf_c20_home_")
     old_home = os.environ.get("HOME")
@@ -379,6 +398,23 @@ def module_prop(modtext, planted, fault_in_function, modname="zmodq",
             f.write(modtext)
         os.environ["HOME"] = home
         it = cklrun.interpreter(fresh=True)
+        if syntax:
+            importer = SYNTAX_REQUIRE_STYLES[style].format(m=modname)
+            out = cklrun.run(importer, budget=20, interp=it, name="imp.ckl")
+            if out[0] != "syntax":
+                return Finding(f"C20|module-syntax-fault-gives-{out[0]}",
+                               f"{modtext!r} required by {importer!r} -> "
+                               f"{cklrun.short(out)}")
+            pos = out[2]
+            m = LINE_RE.search(pos)
+            if not m or not pos.startswith("mod:" + modname + ":"):
+                return Finding("C20|module-error-position-does-not-name-"
+                               "module", f"{modtext!r}: position {pos!r}")
+            if int(m.group(1)) != planted:
+                return Finding("C20|module-error-line",
+                               f"{modtext!r}: reported {pos!r}, planted "
+                               f"line {planted}")
+            return None
         req, use = REQUIRE_STYLES[style]
         if style.startswith("import") and not fault_in_function:
             req = "require {m} import [ v0 ]"
@@ -422,7 +458,8 @@ def prop(case):
                                   case["wrapped"])[0]
     if k == "module":
         return module_prop(case["text"], case["planted"], case["in_function"],
-                           style=case.get("style", "plain"))
+                           style=case.get("style", "plain"),
+                           syntax=case.get("syntax", False))
     raise ValueError(k)
 
 
@@ -614,6 +651,16 @@ def form_program(form, args, blanks, wrapped):
         form_line = cur
         lines.append(body)
         return "\n".join(lines), ranges, form_line, None
+    if wrapped in ("if-multiline", "list-multiline", "finally-multiline"):
+        # the form is a later line of a statement that begins before it
+        head, tail = {"if-multiline": ("if p0 is not string then", ""),
+                      "list-multiline": ("def zl = [1,", "]"),
+                      "finally-multiline": ("do 1 finally", "end")}[wrapped]
+        lines.append(head)
+        lines.append("")
+        form_line = cur + 2
+        lines.append("  " + body + tail)
+        return "\n".join(lines), ranges, form_line, None
     if wrapped == "bare":       # the form is the whole body, no block
         lines.append("def fq()")
         form_line = cur + 1
@@ -717,8 +764,11 @@ def part_node_positions(part):
     converted, at top level, in a function block and as a bare function body."""
     for form in NODE_FORMS:
         for obj in HOOK_OBJECTS:
-            for wrapped in (False, True, "bare"):
-                if wrapped == "bare" and ";" in form:
+            for wrapped in (False, True, "bare", "if-multiline",
+                            "list-multiline", "finally-multiline"):
+                if wrapped in ("bare", "if-multiline", "list-multiline") \
+                        and (";" in form or form.startswith(
+                            ("def ", "for ", "while ", "if ", "error "))):
                     continue
                 for blanks in (0, 2):
                     part.count()
@@ -770,8 +820,31 @@ def part_form_positions(part, n):
 
 
 def part_modules(part, n):
+    def syntax_body(ch):
+        fname, fsrc = ch.choice(SYNTAX_FAULTS[:6])
+        style = ch.choice(sorted(SYNTAX_REQUIRE_STYLES))
+        lay = Layout(ch, crlf=ch.bool(0.2))
+        lay.toks("def v0 = 7 ;")
+        for k in range(ch.int(0, 3)):
+            filler(lay, k)
+        if lay.text and not lay.text.endswith(("\n", "\r\n")):
+            lay.text += lay.nl
+            lay.line += 1
+        planted = lay.oneline(fsrc)
+        lay.text += lay.nl + "def tail = 1" + lay.nl
+        part.count()
+        part.nontriv(lay.text)
+        part.cls("module:syntax-fault:" + style,
+                 lay.text if len(lay.text) < 200 else None)
+        f = module_prop(lay.text, planted, False, style=style, syntax=True)
+        if f:
+            return f, {"kind": "module", "text": lay.text, "planted": planted,
+                       "in_function": False, "style": style, "syntax": True}
+
     def body(tape):
         ch = TapeChooser(tape)
+        if ch.bool(0.35):
+            return syntax_body(ch)
         fname, fsrc = ch.choice(RUNTIME_FAULTS[:3] + RUNTIME_FAULTS[4:6])
         in_fn = ch.bool(0.6)
         style = ch.choice(sorted(REQUIRE_STYLES))
